@@ -4,15 +4,15 @@ CONSTANTS
   CapBoth = 2
   CapAgg = 2
   CapRes = 2
-  Kinds = {"distinct", "lookup1", "lookup2", "count", "limit", "both", "agg"}
+  Kinds = {"distinct", "lookup1", "count", "limit", "both", "agg"}
   MaxStages = 3
-  Ns = {0, 1, 3, 6}
-  Fs = {1, 0, 2, 3}
-  Ks = {99, 0, 2}
+  Ns = {1, 4, 6}
+  Fs = {1, 2, 3}
+  Ks = {99, 1}
   LimitL = 1
   AggA = 2
   BothDrain = "concurrent"
-  MaxWork = 60
+  MaxWork = 30
   Reduce = TRUE
   Survey = FALSE
 INIT Init
